@@ -119,7 +119,7 @@ func From(input any) (Any, error) {
 		}
 		return value, nil
 	case *dtpb.Quantity:
-		value, err := decimal.NewFromString(v.Value.Value)
+		value, err := decimal.NewFromString(v.GetValue().GetValue()) // the value of a Quantity is optional
 		if err != nil {
 			return nil, err
 		}
